@@ -12,9 +12,7 @@
 
 static inline int path_is_single_dot(const char *path)
 {
-    char nc = *(path + 1);
-
-    return *path == '.' && (nc == '/' || nc == '\0');
+    return *path == '.' && (*(path + 1) == '/' || *(path + 1) == '\0');
 }
 
 // Промотать указатель до следующего элемента пути.
